@@ -106,7 +106,12 @@ def explore(ctx, depth):
                 continue
             ids = sorted(rng.sample(range(len(hs)), rng.randint(0, len(hs))))
             sel = call(lambda: kp.dumps(case.doc, spine_ids=ids, **kw))
-            exp = project_text(full['ok'], lambda s: s in ids)
+            # the text-level projection follows the spine paths on the exported text itself, so it only applies when the filter keeps
+            # the header line and the spine operators (otherwise the text does not say which column belongs to which spine; the
+            # grid oracle above covers those option sets)
+            V = docrun.valid_idx(combo['include'], combo['exclude'])
+            structural = TC.HEADER.value - 1 in V and TC.SPINE_OPERATION.value - 1 in V
+            exp = project_text(full['ok'], lambda s: s in ids) if structural else None
             ctx.seen({'text': case.text, 'clause': 'T_spine after T_cat,T_enc', 'ids': ids, 'enc': enc})
             if exp is not None and sel != {'ok': exp}:
                 ctx.fail({'text': case.text, 'spine_ids': ids, 'encoding': enc, 'include': str(combo['include']), 'exclude': str(combo['exclude']),
